@@ -88,14 +88,18 @@ func collConfig(r *rng, mode string) (Config, genOpts) {
 	} else {
 		o.blind = r.chance(1, 10)
 	}
-	if o.blind && mode != "tree" {
+	if o.blind {
 		o.wideFirst = r.chance(1, 2)
 	}
 	unread := false
 	// one case in eight: the unread-segment profile.  Deferred sort, no reads between labels, a
 	// wide first batch that the merger leaves unmerged, plain append persistence: segments reach
 	// the persister (and the file) without anybody having looked at them
-	if mode != "tree" && mode != "map" && r.chance(1, 6) {
+	unreadDen := 6
+	if mode == "tree" {
+		unreadDen = 4
+	}
+	if mode != "map" && r.chance(1, unreadDen) {
 		cfg.DeferredSort = true
 		cfg.LL = "store"
 		cfg.Concern = 0
@@ -106,6 +110,7 @@ func collConfig(r *rng, mode string) (Config, genOpts) {
 		cfg.NoSync = true
 		o.blind, o.wideFirst, o.bigFirst = true, true, false
 		unread = true
+		o.focusChild = mode == "tree" && r.chance(2, 3)
 	}
 	if cfg.LL == "store" {
 		o.persistHeavy = o.bigFirst || r.chance(1, 3)
